@@ -212,6 +212,23 @@ func (in *Interp) assert(cond *Term, label, knownID string, inClass *Term) {
 				sat, m = true, mm
 			case Unknown:
 				in.incon = append(in.incon, "assertion "+label+" unknown: "+why)
+			case Unsat:
+				// thorough tier: the deciding query is re-run one-shot on the other solvers
+				if in.P.tier() > 0 && in.P.takeCrossCheck() {
+					script := Standalone(q)
+					for _, kind := range []string{"z3", "cvc5"} {
+						r2, w2 := RunStandalone(kind, script, 60000)
+						switch r2 {
+						case Sat:
+							in.incon = append(in.incon, "cross-solver disagreement on assertion "+label+": "+kind+" says sat")
+						case Unknown:
+							in.P.noteCross(kind, false)
+							_ = w2
+						default:
+							in.P.noteCross(kind, true)
+						}
+					}
+				}
 			}
 		}
 		if sat {
